@@ -19,6 +19,8 @@ HBIN_DIR = os.path.join(HARNESS, 'target', 'debug')
 
 def hbin(kind, ek):
     kind = re.sub(r'\d+$', '', kind)      # mapped0/1/3 -> mapped
+    if kind in ('array', 'bstream', 'iomap', 'wctx', 'mspan'):
+        kind = 'kinds'
     return os.path.join(HBIN_DIR, f'h_{kind}_{ek}')
 ALLOWED_AXIOMS = {'propext', 'Classical.choice', 'Quot.sound'}
 FORBIDDEN = re.compile(r'\bsorry\b|\badmit\b|^axiom |native_decide|bv_decide|implemented_by|\bunsafe |maxHeartbeats 0')
